@@ -52,10 +52,13 @@ func C14(c *Ctx) {
 }
 
 func C13(c *Ctx) {
+	R1IndexSentinel(c)
 	R14Config(c)
 	R15ConfigOrder(c)
 	R15EnumFam(c)
 	R15ErrDiscipline(c)
+	R15PackVerbatim(c)
+	R15WorkingHours(c)
 	R15NoCarry(c)
 	R15CountLoop(c)
 	R8PackerWidth(c)
@@ -67,6 +70,7 @@ func C15(c *Ctx) {
 	R15Socks(c)
 	R15FieldLoops(c)
 	R15TypedNil(c)
+	R15AgentClose(c)
 	R15ClosePropagation(c)
 	R8CmpWidth(c, 1)
 	R15FailureCloses(c)
@@ -94,6 +98,7 @@ func C04(c *Ctx) {
 }
 
 func C16(c *Ctx) {
+	R1IndexSentinel(c)
 	R12Registry(c)
 	R12NameOfKind(c)
 	R12RemoveWrites(c)
@@ -126,6 +131,7 @@ func C16(c *Ctx) {
 }
 
 func C12(c *Ctx) {
+	R1IndexSentinel(c)
 	R11HTTPProfile(c)
 	R11RedirProvenance(c)
 	R11NoCarry(c)
@@ -134,6 +140,7 @@ func C12(c *Ctx) {
 }
 
 func C11(c *Ctx) {
+	R1IndexSentinel(c)
 	R13EventLog(c)
 	R13Deadline(c)
 	R13Regenerated(c)
@@ -144,6 +151,7 @@ func C11(c *Ctx) {
 }
 
 func C01(c *Ctx) {
+	R1IndexSentinel(c)
 	scope := c.ScopeFrom(c.AgentFacingRoots())
 	R1Bounds(c, scope, "", 100)
 	R1PivotJobShape(c)
@@ -201,6 +209,7 @@ func C02(c *Ctx) {
 	R8Terminators(c)
 	R8Pivot(c)
 	R14Commands(c)
+	R15WorkingHours(c)
 }
 
 func C08(c *Ctx) {
@@ -273,6 +282,7 @@ func C07(c *Ctx) {
 }
 
 func C09(c *Ctx) {
+	R1IndexSentinel(c)
 	R9DBShape(c)
 	R9Pivot(c)
 	R9CycleGuard(c)
